@@ -162,3 +162,16 @@ Theorem c15_publication : forall sch,
   mp_bad (RA.result (RA.run (RA.init (mp_fence_orders c15_publish_fence c15_consume_fence)) sch)) = false.
 Proof. apply mp_fence_orders_all_executions. vm_compute. reflexivity. Qed.
 Print Assumptions c15_publication.
+
+(* ---- the end marker's slot is accessible for EVERY number of published items, in particular 128*k (the marker is
+   then the first slot of a block nobody has touched): close() reserves it with ConcurrentVector::ensure(index);
+   the accessor is regenerated from the source, reserved_snapshot(index) would leave it out at every block boundary
+   (c15_snapshot_accessor_would_miss_block_boundary). *)
+Require Import Verif.TT.TTClose.
+Theorem c15_close_marker_slot_accessible : forall published : Z, (0 <= published)%Z ->
+  slot_accessible (close_blocks published) published.
+Proof. exact close_marker_slot_accessible. Qed.
+Print Assumptions c15_close_marker_slot_accessible.
+Example c15_snapshot_accessor_would_miss_block_boundary : forall k : Z, (1 <= k)%Z ->
+  ~ slot_accessible (blocks_after_snapshot (Z.max (block_size * k) 1)) (block_size * k)%Z.
+Proof. exact snapshot_accessor_misses_block_boundary. Qed.
